@@ -821,6 +821,40 @@ func (c *Ctx) sharedScratchWrites(typ, mutex string) {
 				held := lf.must[ins]
 				c.verdict(holds(held, "."+mutex, true), fmt.Sprintf("%s:append-to-%s", fnKey(fn), field), ins.Pos(), "the shared slice is appended to with the mutex held exclusively",
 					fmt.Sprintf("append writes into the backing array of %s, shared by all users of the object, without holding %s exclusively (held: %s): concurrent callers overwrite each other's entries", field, mutex, held))
+				// what was put into the shared backing array is read back only while the mutex is
+				// still held: after the unlock the next caller starts overwriting it
+				seenV := map[ssa.Value]bool{}
+				var uses []ssa.Instruction
+				var follow func(v ssa.Value, depth int)
+				follow = func(v ssa.Value, depth int) {
+					if depth > 6 || seenV[v] || v.Referrers() == nil {
+						return
+					}
+					seenV[v] = true
+					for _, r := range *v.Referrers() {
+						switch x := r.(type) {
+						case *ssa.Phi:
+							follow(x, depth+1)
+						case *ssa.Slice:
+							follow(x, depth+1)
+						case *ssa.IndexAddr:
+							uses = append(uses, x)
+						case *ssa.Index:
+							uses = append(uses, x)
+						}
+					}
+				}
+				follow(call, 0)
+				for _, u := range uses {
+					if u.Parent() != fn {
+						continue
+					}
+					hu := lf.must[u]
+					if !holds(hu, "."+mutex, false) {
+						c.bad(fmt.Sprintf("%s:read-of-%s", fnKey(fn), field), u.Pos(), "the list built in the backing array of %s (shared by all users of the object) is read at %s without %s held (held: %s): once the lock is dropped the next caller overwrites the entries, this one then works on the other's list", field, c.pos(u.Pos()), mutex, hu)
+						break
+					}
+				}
 			}
 		}
 	}
